@@ -286,7 +286,7 @@ def run_check(mod, tier: str, replay: Optional[str]) -> int:
                                      detail, sig='fixed:' + e['id'])
                 violations.append(('fixed:' + e['id'], path, detail))
     regress_n = 0
-    rdir = REPLAYS / prop / 'regress'
+    rdir = VERIF / 'replays' / prop / 'regress'
     if rdir.is_dir():
         for f in sorted(rdir.glob('*.json')):
             c = json.loads(f.read_text())
